@@ -10,11 +10,21 @@ search).  What is proved:
 * the **frame**: every key that `update` does not own comes out with exactly the value — the same
   reference — it went in with (so nested kinematics lists, grids, CKM lists are shared, never
   rebuilt or edited);
+* **no write into the caller's objects** (second half of the file): on the heap model of
+  `Model/Heap.lean` (objects at locations, `.copy()` allocates, nested objects stay shared) the
+  static check `safe` is sound for every execution (`Heap.safe_preserves`), and the effect lists that
+  `harness/translate_effects.py` regenerates from the syntax trees of `compatibility.update` (callees
+  inlined), `CouplingConstants.from_dict`, `Runner.__init__`, `StructureFunction.load` and
+  `CrossSection.load` pass it: every store goes, at depth 0, into an object the function created
+  itself (`*_leaves_callers_objects`); the places where the cards are handed on to code that is not
+  analysed are a decided table (`escapes_known`);
 * **idempotence** (`update_idempotent`): upgrading an already upgraded pair of cards changes
   nothing — every step of `update` is the identity on its own output and no later step touches
   what an earlier one reads or writes.
 -/
 import YadismModel.Model.Compat
+import YadismModel.Lemmas.HeapSound
+import YadismModel.Generated.Effects
 import Mathlib.Data.List.Basic
 import Mathlib.Tactic.Linarith
 
@@ -482,6 +492,72 @@ theorem update_idempotent (t o t' o' : Card) (h : update t o = .ok (t', o')) :
     · simp at hf
   · simp at h
   · simp at h
+
+
+/-! ## The caller's objects are never written (heap model, effects regenerated from the source) -/
+
+section heap
+open Yadism.Heap Yadism.Generated
+
+/-- `compatibility.update` and everything it calls only store into its own two `.copy()`s -/
+theorem update_writes_only_own_copies : safe Effects.update = true := by decide
+
+/-- `update` hands the cards to no function outside `input/compatibility.py` -/
+theorem update_hands_cards_to_nobody : Effects.updateEscapes = [] := by decide
+
+/-- **`compatibility.update` leaves every object the caller can see untouched**: on every heap, in
+every environment (whatever the parameters refer to), for every choice of branches, stored values
+and aliases -/
+theorem update_leaves_callers_objects (orc : Oracle) (env : Env) (h0 : Heap) :
+    ∀ l, l < h0.length → (exec orc Effects.update (env, h0)).2[l]? = h0[l]? :=
+  safe_preserves orc _ env h0 update_writes_only_own_copies
+
+theorem from_dict_leaves_callers_objects (orc : Oracle) (env : Env) (h0 : Heap) :
+    ∀ l, l < h0.length → (exec orc Effects.fromDict (env, h0)).2[l]? = h0[l]? :=
+  safe_preserves orc _ env h0 (by decide)
+
+/-- the body of `Runner.__init__` (with `update`, `from_dict`, `log.setup` inlined): all its own stores go
+into objects it created -/
+theorem runner_init_leaves_callers_objects (orc : Oracle) (env : Env) (h0 : Heap) :
+    ∀ l, l < h0.length → (exec orc Effects.runnerInit (env, h0)).2[l]? = h0[l]? :=
+  safe_preserves orc _ env h0 (by decide)
+
+theorem load_leaves_callers_objects (orc : Oracle) (env : Env) (h0 : Heap) :
+    (∀ l, l < h0.length → (exec orc Effects.sfLoad (env, h0)).2[l]? = h0[l]?) ∧
+    (∀ l, l < h0.length → (exec orc Effects.xsLoad (env, h0)).2[l]? = h0[l]?) :=
+  ⟨safe_preserves orc _ env h0 (by decide), safe_preserves orc _ env h0 (by decide)⟩
+
+/-- where the cards (or objects reachable from them) leave the analysed code: constructors of eko's
+grid and basis, the scale-variation manager, the observable containers and — through `load` — the
+constructors of the evaluated structure functions / cross sections; numpy conversions; logging.
+What *those* do with the caller's nested objects is not a theorem: it is observed by the
+deep-comparison search (`cards_untouched_and_echoed`). A new callee shows up here. -/
+def allowedEscapes : List String :=
+  ["XGrid", "InterpolatorDispatcher", "cls", "np.array", "sv.ScaleVariations", "RunnerConfigs",
+   "observable_name.ObservableName", "XS", "SF", "obs.load", "interpolator.to_dict",
+   "self.get_esf", "exs.EvaluatedCrossSection",
+   "rich.console.Console", "logger.setLevel", "ekologger.setLevel", "RichHandler", "rh.setFormatter",
+   "logger.addHandler", "ekologger.addHandler", "logging.FileHandler"]
+
+theorem escapes_known :
+    ∀ e ∈ Effects.fromDictEscapes ++ Effects.runnerInitEscapes ++ Effects.sfLoadEscapes ++ Effects.xsLoadEscapes,
+      e.1 ∈ allowedEscapes := by decide
+
+/-- the model can exhibit the failure: one store through a parameter, or one nested store through a
+copy, changes an object the caller sees — and `safe` rejects exactly these programs -/
+example :
+    let orc : Oracle := ⟨fun _ => true, fun _ _ => [("kcThr", .atom 0)], fun _ => 1, fun _ => 0⟩
+    let env : Env := fun v => if v = "theory" then some 0 else none
+    let h0 : Heap := [[("CKM", .ref 1)], [("0", .atom 5)]]
+    (exec orc [.write "theory"] (env, h0)).2[0]? ≠ h0[0]?
+      ∧ safe [.write "theory"] = false
+      ∧ (exec orc [.copy "t" "theory", .writeNested "t"] (env, h0)).2[1]? ≠ h0[1]?
+      ∧ safe [.copy "t" "theory", .writeNested "t"] = false
+      ∧ (exec orc [.copy "t" "theory", .write "t"] (env, h0)).2 = h0 ++ [[("kcThr", .atom 0)]]
+      ∧ safe [.copy "t" "theory", .write "t"] = true := by
+  decide
+
+end heap
 
 /-! Non-vacuity and an executable instance of idempotence -/
 def sampleT : Card :=
